@@ -16,8 +16,8 @@ from harness import stmt_wire as SW
 
 META = {
     "id": "C06",
-    "technique": "Coq proof (escape = _escape_string_literal round-trips through a model of the g++ string-literal lexer for every string without a line end, refuted with a raw line end; the emitter's stitching order is sorted by section kind with one setup and one loop, declared-before-use of file-scope names holds under an explicit guard and is refuted for a function that mentions an ultrasonic helper or a later function; every assignment in the IR of the statement translator targets a variable visible under C++ block scoping, by induction over the translation incl. promotion and both rewriters, refuted for a setup-local introduced by a mixed tuple assignment; the header stitching includes the headers of every library class it instantiates, for every list of device declarations (Lang/Headers.v); the function-selection loop of parse() emits each (function, signature) once, only existing variants and every variant a recorded call resolves to, and no two definitions share name and C++ parameter list when the labels are those of _cpp_type's table (Lang/FnSelect.v); every device-call template of _emit_block keeps its helper locals in a block of its own, so any sequence of device calls in any block is free of redeclaration, and a whole function body is when the script's own declarations are (Lang/EmitScope.v: scope stack of C++ block scoping, LCD glyph arrays numbered by a counter that only grows); the global lines de-duplicated by text define no name twice when each name is always offered with one initialiser, refuted for a Servo bound twice with different limits (Lang/Globals.v)) + extracted-model correspondence with the real _escape_string_literal / _to_c_expr, with g++'s own lexer, with the section structure read back from the real emitted text, of the scoping verdict with g++, of the include list / library objects with the real text for the device declarations of the real IR, of the selected function variants with Program.functions for the real specialisation tables, and of the blocks and declarations of setup / loop / every user function that the emitter model produces for the real IR with those read back from the real text + the compiler as property oracle: the whole statement catalog (every device method with literal and run-time arguments, every statement that makes the transpiler invent a C++ name) twice in ONE block of every kind of block, reduced by ddmin to a minimal failing sequence; every accepted generated script inside the guard is compiled and linked with g++ against the mock core, every generated printable literal is printed by the firmware and compared with the Python value",
-    "level_text": "Theorems C06_* (coq/Props/C06.v) hold for all strings / all sketches / all programs of Gallina models (coq/Lang/Escape.v: escape and a lexer of one ordinary C++ string literal incl. line splicing; coq/Lang/Sections.v: the emitter's stitching order with defines/uses per top-level item; coq/Lang/Scope.v: C++ block scoping over the IR of coq/Lang/Transl.v, the model of the statement translator that unit C01_stmt ties to parser.py; coq/Lang/Headers.v: servo/LCD flags, library objects and includes as a fold over the top-level device declarations; coq/Lang/FnSelect.v: the selection loop over variants / recorded call signatures / aliases / primary signature and _cpp_type; coq/Lang/EmitScope.v: per IR node kind the blocks it opens and the names it declares, written from the branches of _emit_block, and the scope stack that decides 'declared twice in one scope'; coq/Lang/Globals.v: de-duplication of global lines by text). The models are run against the real functions and against g++ on generated inputs; the C++ type checker is not modelled - g++ itself decides, on every accepted script of a structured generator (devices x helpers x lists x functions x control flow x printable literals) restricted to the guard of the listed findings.",
+    "technique": "Coq proof (escape = _escape_string_literal - backslash, quote, LF / CR / TAB as letter escapes, every other control character as a three-digit octal escape - round-trips through a model of the g++ string-literal lexer for EVERY string, its image contains no control character, it is injective and agrees with the pre-repair function on strings without control characters, which in turn is shown to fail on a raw line end; the emitter's stitching order - with one prototype per function variant and ultrasonic helper after the globals - is sorted by section kind with one setup and one loop, declared-before-use of file-scope names holds under a guard that lets a function mention any function and any ultrasonic helper, in particular for a function that calls measure_distance() or a function defined further down, and is refuted for the order without prototypes; every assignment in the IR of the statement translator targets a variable visible under C++ block scoping, by induction over the translation incl. promotion and both rewriters, refuted for a setup-local introduced by a mixed tuple assignment; the header stitching includes the headers of every library class it instantiates, for every list of device declarations (Lang/Headers.v); the function-selection loop of parse() emits each (function, signature) once, only existing variants and every variant a recorded call resolves to, and no two definitions share name and C++ parameter list when the labels are those of _cpp_type's table (Lang/FnSelect.v); every device-call template of _emit_block keeps its helper locals in a block of its own, so any sequence of device calls in any block is free of redeclaration, and a whole function body is when the script's own declarations are (Lang/EmitScope.v: scope stack of C++ block scoping, LCD glyph arrays numbered by a counter that only grows); the global lines de-duplicated by text define no name twice when each name is always offered with one initialiser, refuted for a Servo bound twice with different limits (Lang/Globals.v)) + extracted-model correspondence with the real _escape_string_literal / _to_c_expr, with g++'s own lexer, with the section structure read back from the real emitted text, of the scoping verdict with g++, of the include list / library objects with the real text for the device declarations of the real IR, of the selected function variants with Program.functions for the real specialisation tables, and of the blocks and declarations of setup / loop / every user function that the emitter model produces for the real IR with those read back from the real text + the compiler as property oracle: the whole statement catalog (every device method with literal and run-time arguments, every statement that makes the transpiler invent a C++ name) twice in ONE block of every kind of block, reduced by ddmin to a minimal failing sequence; every accepted generated script inside the guard is compiled and linked with g++ against the mock core, every generated literal (printable or with control characters, NUL excepted) is printed by the firmware and compared with the Python value; the images of the real escape are compiled by g++ and read back byte by byte",
+    "level_text": "Theorems C06_* (coq/Props/C06.v) hold for all strings / all sketches / all programs of Gallina models (coq/Lang/Escape.v: escape and a lexer of one ordinary C++ string literal incl. line splicing and octal / hexadecimal escapes; coq/Lang/Sections.v: the emitter's stitching order incl. the generated prototypes, with defines/uses per top-level item; coq/Lang/Scope.v: C++ block scoping over the IR of coq/Lang/Transl.v, the model of the statement translator that unit C01_stmt ties to parser.py; coq/Lang/Headers.v: servo/LCD flags, library objects and includes as a fold over the top-level device declarations; coq/Lang/FnSelect.v: the selection loop over variants / recorded call signatures / aliases / primary signature and _cpp_type; coq/Lang/EmitScope.v: per IR node kind the blocks it opens and the names it declares, written from the branches of _emit_block, and the scope stack that decides 'declared twice in one scope'; coq/Lang/Globals.v: de-duplication of global lines by text). The models are run against the real functions and against g++ on generated inputs; the C++ type checker is not modelled - g++ itself decides, on every accepted script of a structured generator (devices x helpers x lists x functions incl. forward calls and measuring functions x control flow x string literals incl. control characters) restricted to the guard of the listed findings.",
     "level_note": "Trusted: Coq kernel, extraction, OCaml driver, g++ 12 -std=gnu++17 and the mock Arduino core as the definition of 'compiles', harness/c06_sections.py (reads top-level items, defined and used names out of the emitted text), harness/c06_gen.py (script generator and the syntactic guard shapes_of). Theorems are about the models; what ties the whole transpiler to the property is the compiler oracle, a search, not a proof.",
     "design_ref": "DESIGN.md section 4 C06",
 }
@@ -501,14 +501,13 @@ def boundary_scripts():
         out.append((uimp + body, {"boundary: function uses ultrasonic, " + k: 1}))
     fwd = {
         "int result": "def f():\n    return g() + 1\ndef g():\n    return 2\n" + "while True:\n    mon.write(f())\n    sleep(100)\n",
-        "float result, argument": "def f(k: int):\n    return g(k) + 0.5\ndef g(z: int):\n    return z / 2.0\n" + "while True:\n    mon.write(f(3))\n    sleep(100)\n",
+        "argument, float caller": "def f(k: int):\n    return g(k) + 0.5\ndef g(z: int):\n    return z * 2\n" + "while True:\n    mon.write(f(3))\n    sleep(100)\n",
         "bare statement": "def f():\n    show(3)\ndef show(n: int):\n    mon.write(n)\nf()\n" + tail,
-        "in a condition": "def f(v: int):\n    if big(v):\n        return 1\n    return 0\ndef big(w: int):\n    return w > 10\nr = f(20)\n" + tail,
-        "mutual recursion": "def even(n: int):\n    if n == 0:\n        return True\n    return odd(n - 1)\ndef odd(n: int):\n    if n == 0:\n        return False\n    return even(n - 1)\n" + "while True:\n    mon.write(even(4))\n    sleep(100)\n",
+        "in a condition": "def f(v: int):\n    if big(v) > 0:\n        return 1\n    return 0\ndef big(w: int):\n    return w // 10\nr = f(20)\n" + tail,
+        "mutual recursion": "def even(n: int):\n    if n == 0:\n        return 1\n    return odd(n - 1)\ndef odd(n: int):\n    if n == 0:\n        return 0\n    return even(n - 1)\n" + "while True:\n    mon.write(even(4))\n    sleep(100)\n",
         "chain of three": "def a1():\n    return b1() + 1\ndef b1():\n    return c1() + 1\ndef c1():\n    return 1\nv = a1()\n" + tail,
         "two callers of one later function": "def p1():\n    return later(1)\ndef p2():\n    return later(2) * 2\ndef later(k: int):\n    return k + 1\nv = p1() + p2()\n" + tail,
         "called forward and backward": "def first():\n    return second() + 1\ndef second():\n    return 2\ndef third():\n    return first() + second()\nv = third()\n" + tail,
-        "list parameter": "def total():\n    return add_all(vals)\ndef add_all(xs: list[int]):\n    t = 0\n    for i in range(len(xs)):\n        t = t + xs[i]\n    return t\nvals = [1, 2, 3]\nv = total()\n" + tail,
     }
     for k, body in fwd.items():
         out.append((head + body, {"boundary: forward call, " + k: 1}))
@@ -1162,10 +1161,11 @@ def run(ctx: C.Ctx):
     ctx.coverage.update({
         "evaluations": n1 + n2 + n3 + n4 + n5 + n6,
         "distinct_nontrivial": nt1 + nt4,
-        "rule": "A: escape on special strings + all 1/2-character strings over a 12-symbol boundary alphabet + all 3-character strings over 5 symbols + seeded printable strings (ASCII incl. quote/backslash/?, Unicode) + strings with control characters (model vs _escape_string_literal; the real output lexed by the model lexer; the three escape call sites of _to_c_expr). "
-                "B: C++ literal bodies built from plain characters, simple/octal/hex escapes, trigraph-like sequences, line splices, non-ASCII: model lexer vs the bytes g++ stores. "
-                "C: printable strings in 11 script contexts (write, variable, list element, function argument, f-string, concatenation, +=, return value of a helper, arm of a conditional expression, comparison with a second spelling of the literal, text / label arguments of LCD calls) transpiled, compiled, run; the printed line must be the Python value. "
-                "D: 6 edge scripts + 31 boundary scripts (every device name bound twice with the same arguments / with other pins, hoistable kinds bound before the loop and again at its top; every combination and declaration order of Servo / parallel LCD / I2C LCD incl. a Servo hoisted from the loop head and two objects per class; every helper shape: parameter re-bound to float called with int and float in both orders, two real overloads, calls through annotated wrappers, one signature twice, never called, called from a function only) + seeded structured scripts (c06_gen.gen_script: device kinds forced in rotation before the loop / hoistable kinds at the top of the loop body; every 4th script with 1-3 instances per device kind in shuffled order, both LCD interfaces / only one of them in rotation, a hoistable kind both before and in the loop; every 4th script with helpers whose un-annotated parameters are called with several argument types (13 shapes in rotation: re-bound parameters, overloads, recursion, list parameter / result, global statement, empty body) at top level, in the loop, in nested blocks and inside other functions; devices first / alternating with globals / below the functions that drive them; pins as literals or global variables; globals, lists, user functions, if/elif/else, for, while, try, tuple assignment, f-strings, device calls with literal and run-time arguments) filtered by the syntactic guard shapes_of; every accepted one is compiled+linked by g++ (oracle) and its top-level structure is read back and compared with the model's stitch order / declared-before-use verdict; on each of them two more property clauses are evaluated on the real artefacts (every instantiated library class has its own header included above the object; no (name, parameter types) is defined twice - in Program.functions and in the text) and Lang/Headers.v / Lang/FnSelect.v are run on the real device declarations / specialisation tables and compared with the real include list, library objects and Program.functions. "
+        "rule": "fixed findings: the four witnesses recorded as fixed are replayed first (a failure is a VIOLATION with the witness as replay). "
+                "A: escape on special strings + all 1/2-character strings over a 21-symbol boundary alphabet (incl. LF, CR, TAB, NUL, 0x01, 0x1f, DEL, digits) + all 3-character strings over 8 symbols + every code point below 256 alone and in front of 0 7 8 a f backslash quote LF + seeded strings, half printable (ASCII incl. quote/backslash/?, Unicode), half with control characters mixed in (often right before a digit / hex digit / backslash / quote) (model vs _escape_string_literal; the real output lexed by the model lexer must give back the string - for EVERY string; the three escape call sites of _to_c_expr). "
+                "B: C++ literal bodies built from plain characters, simple/octal/hex escapes, trigraph-like sequences, line splices, non-ASCII: model lexer vs the bytes g++ stores; plus the images of the REAL escape (special strings, every code point below 256 followed by the digit 7, a sample of the strings with control characters): g++ must store exactly the UTF-8 bytes of the Python string (oracle). "
+                "C: strings (half of them with control characters; NUL excepted) in 11 script contexts (write, variable, list element, function argument, f-string, concatenation, +=, return value of a helper, arm of a conditional expression, comparison with a second spelling of the literal, text / label arguments of LCD calls) transpiled, compiled, run; the printed lines must be the Python value followed by CR LF as the mock's Serial cuts it into lines (split at LF, one CR before the LF dropped - so a CR directly in front of a LF is the one thing this oracle cannot see; parts A and B can). "
+                "D: 6 edge scripts + 46 boundary scripts (the two shapes the prototypes repair: a function that measures - result returned / in a condition / two sensors / only the function measures / function and loop measure / called by a function above it / sensor declared at the top of the loop - and forward calls - int result, with an argument from a float caller, bare statement, condition, mutual recursion, chain of three, two callers, forward and backward; every device name bound twice with the same arguments / with other pins, hoistable kinds bound before the loop and again at its top; every combination and declaration order of Servo / parallel LCD / I2C LCD incl. a Servo hoisted from the loop head and two objects per class; every helper shape: parameter re-bound to float called with int and float in both orders, two real overloads, calls through annotated wrappers, one signature twice, never called, called from a function only) + seeded structured scripts (c06_gen.gen_script: device kinds forced in rotation before the loop / hoistable kinds at the top of the loop body; every 4th script with 1-3 instances per device kind in shuffled order, both LCD interfaces / only one of them in rotation, a hoistable kind both before and in the loop; every 4th script with helpers whose un-annotated parameters are called with several argument types (13 shapes in rotation: re-bound parameters, overloads, recursion, list parameter / result, global statement, empty body) at top level, in the loop, in nested blocks and inside other functions; every 8th script with 2-4 functions written in REVERSE order of their generation (every call among them is a call of a function defined further down) next to an Ultrasonic, function bodies may call measure_distance(); devices first / alternating with globals / below the functions that drive them; pins as literals or global variables; globals, lists, user functions, if/elif/else, for, while, try, tuple assignment, f-strings, device calls with literal and run-time arguments) filtered by the syntactic guard shapes_of; every accepted one is compiled+linked by g++ (oracle) and its top-level structure is read back and compared with the model's stitch order / declared-before-use verdict; on each of them two more property clauses are evaluated on the real artefacts (every instantiated library class has its own header included above the object; no (name, parameter types) is defined twice - in Program.functions and in the text) and Lang/Headers.v / Lang/FnSelect.v are run on the real device declarations / specialisation tables and compared with the real include list, library objects and Program.functions. "
                 "H: harness/c06_pairs.py - a catalog of ~130 statement shapes (every method of Led, RGBLed, Buzzer, Servo, DCMotor, LCD (parallel with backlight pin and I2C), SerialMonitor, Core, sensors with all-literal and with run-time arguments, optional arguments present / absent; tuple assignments all-new / swap / rotate, list literal / comprehension / append / remove / len / index / setitem, calls, for / while / if / elif / try with names promoted out of them, augmented assignments, in functions the re-assignment of the parameter) put TWICE (second copy shuffled, fresh Python names) into ONE block of each of 13 kinds (setup, loop, function body, if / elif / else arm, for, while, try, except, if inside a function, for inside if, loop body below devices declared at its top): every pair of shapes and every shape with itself share one C++ scope; g++ is the oracle, a failing sequence is reduced by ddmin and the minimal script is the replay (evaluations count the pairs); thorough: 6 more rounds per context with three shuffled copies cut at a random length. "
                 "I: every compiled script of D and H: each function of the real text is read back into blocks / header declarations / declarations (harness/c06_scope.py), the extracted scope stack decides whether a name is declared twice in one scope (oracle, cross-checked with g++'s 'redeclaration' errors in both directions), and the extracted emitter model run on the real IR (node kinds + the attributes that decide the template: literal vs run-time durations, empty pattern, known melody / LCD / button) must reproduce blocks and declared names of setup, loop and every user function exactly (declaration-free blocks pruned on both sides). "
                 "F: statement-fragment programs (harness/progen.py feature sets + 34 scoping boundary templates: all-new / mixed / all-old tuple assignments at every level, names first bound in branches and loops, for variables re-bound after the loop) through the extracted Lang.Transl + Lang.Scope and through the real transpiler + g++: the theorem's conclusion is re-checked on the extracted model, and a target the model finds invisible must make g++ fail with 'not declared'. "
@@ -1173,7 +1173,7 @@ def run(ctx: C.Ctx):
         "samples": samples[:4],
         "timing_s": timing,
         "distribution": {k: v for k, v in sorted(dist.items(), key=lambda kv: str(kv[0]))},
-        "guard": "strings: str.isprintable() (theorem guard: no LF/CR). scripts: c06_gen.shapes_of(script) is empty - no user function that calls measure_distance() or lcd.animate(), no call of a function defined later, no '**', no 'except <Name>', no '+' of two string literals, no C++ keyword / Arduino core name as a Python identifier, no top-level tuple assignment mixing new and old names, no for variable mentioned after its loop, no for over anything but range(...), no un-annotated parameter re-bound to a string-valued expression, no string / float literal passed to an un-annotated parameter outside an assignment or return value, no function above an RGBLed whose on/off/blink/toggle it calls, no Servo / Buzzer name bound twice with different arguments besides the pin; plus generator invariants: type-correct Python, one type class per variable name, list.append/remove arguments of the element type, a helper with two real overloads has one numeric and one String overload and is called only as the right-hand side of an assignment, a helper whose un-annotated parameter is used as a list is called once in an assignment. Function theorem C06_fn_no_redefinition_partial: all labels in _cpp_type's table. Redeclaration theorem C06_emit_no_redeclaration_partial: the declarations the script itself causes (locals, for variables, catch targets, parameters, button polls) are free of redeclaration (the parser's bookkeeping; checked by g++ and the scope oracle, not proved). Globals theorem: every name always offered with the same initialiser. Scoping theorem: setup() has no top-level local declaration (for loop()), targets of augmented assignments not checked",
+        "guard": "strings: none (every string; the device-value oracle of part C leaves out NUL, which a C string cannot carry). scripts: c06_gen.shapes_of(script) is empty - no user function that calls lcd.animate(), no call of a function defined further down unless that function evidently returns an int or nothing, no '**', no 'except <Name>', no '+' of two string literals, no C++ keyword / Arduino core name as a Python identifier, no top-level tuple assignment mixing new and old names, no for variable mentioned after its loop, no for over anything but range(...), no un-annotated parameter re-bound to a string-valued expression, no string / float literal passed to an un-annotated parameter outside an assignment or return value, no function above an RGBLed whose on/off/blink/toggle it calls, no Servo / Buzzer name bound twice with different arguments besides the pin; plus generator invariants: type-correct Python, one type class per variable name, list.append/remove arguments of the element type, a helper with two real overloads has one numeric and one String overload and is called only as the right-hand side of an assignment, a helper whose un-annotated parameter is used as a list is called once in an assignment. Function theorem C06_fn_no_redefinition_partial: all labels in _cpp_type's table. Redeclaration theorem C06_emit_no_redeclaration_partial: the declarations the script itself causes (locals, for variables, catch targets, parameters, button polls) are free of redeclaration (the parser's bookkeeping; checked by g++ and the scope oracle, not proved). Globals theorem: every name always offered with the same initialiser. Scoping theorem: setup() has no top-level local declaration (for loop()), targets of augmented assignments not checked",
         "unmodelled": ["the C++ type checker (template deduction in the list helpers, String overloads, implicit conversions): decided by g++ only",
                        "AVR specifics: <cstring> in the len helper, 16-bit int, PROGMEM; the mock is a hosted g++ 12 with the mock core",
                        "universal character names, GNU escapes, numeric escapes > 255, -trigraphs / -std=c++NN modes (the lexer model answers None)",
